@@ -130,7 +130,10 @@ def exotic_project(rnd, idx):
         ret = rnd.choice(["", " -> " + rnd.choice(EXOTIC_TYPES), " -> Result<S%d_0, String>" % idx, " -> impl std::future::Future<Output = ()>", " -> " + nested_generic(40)])
         gen = rnd.choice(["", "<R: tauri::Runtime>", "<'a, T>", "<const N: usize>"])
         where = rnd.choice(["", " where T: Clone", ""])
-        body = rnd.choice(["todo!()", "app.emit(\"%s\", %s).unwrap(); todo!()" % (rand_text(rnd, 3).replace('\\"', "").replace("\\", ""), rnd.choice(["1", "x", "(1, 2)", "S { a }", "&*y", "z.clone().clone()", "f(g(h()))", "[1, 2][0]", "|| 1", "\"s\"", "1.0e10", "b'x'", "'c'", "!true", "-1", "a as i64", "unsafe { q }"])),
+        body = rnd.choice(["todo!()", "app.emit(\"%s\", %s).unwrap(); todo!()" % (rand_text(rnd, 3).replace('\\"', "").replace("\\", ""), rnd.choice(["1", "x", "(1, 2)", "S { a }", "&*y", "z.clone().clone()", "f(g(h()))", "[1, 2][0]", "|| 1", "\"s\"", "1.0e10", "b'x'", "'c'", "!true", "-1", "a as i64", "unsafe { q }",
+                                                                                                                                   # expressions with nothing inside where something usually is
+                                                                                                                                   "match never {}", "match r { Err(e) => match e {}, Ok(v) => v }", "if c { x } else { y }", "if c { }", "[]", "{}", "loop {}", "()", "vec![]",
+                                                                                                                                   "S {}", "f()", "(())", "[(); 0]", "match x { _ => {} }", "if let Some(v) = o { v } else { return }", "&&&x", "x.0.1", "..", "x?"])),
                            "loop { match x { _ if y => { window.emit_to(\"l\", \"e\", v)?; } _ => break } }", "let Some(v) = o else { return; }; webview.emit(\"x\", v).ok();",
                            "async move { app.emit(\"inner\", 1) }.await.unwrap();", "macro_call!(app.emit(\"in-macro\", 1));", "app.emit(CONST_NAME, 1).unwrap();", "app.emit(\"one-arg\").unwrap();",
                            "self.app.emit(\"field\", self.x.y.z).unwrap();", "emit(\"free-fn\", 1);", "app.emit_to(\"only\", \"two\").unwrap();"])
